@@ -268,8 +268,7 @@ theorem upperDir_consistent {s : St} (hc : Consistent s) {L : Layer} (hup : s.di
     (by
       intro hlo c
       rw [hd', hkids]
-      have := hl.kidsLoaded _ m hm hlo c
-      exact ⟨this.1, fun h => this.2 ((headStat_ne_none_iff s.disk _ _).1 h)⟩)
+      exact hl.kidsLoaded _ m hm hlo c)
     (by simp [headWhiteout, realOf, hq0, Node.isWhiteout])
     (by rw [hd', hloc1]; simp)
     log'
